@@ -253,6 +253,18 @@ def gen_func(rng, max_blocks=4, sig=None, genv=()):
         if aux.random() < 0.08:
             b["insts"].insert(aux.randrange(len(b["insts"]) + 1), {"row": 87, "ty": aux.choice(["p0(i8)", "p0(p0(i8))"]), "to": aux.choice(["i32", "i64", "p0(i8)", "f2"]),
                                                                     "res": aux_ident(), "has": True, "aux": True})
+        # atomic memory instructions (rows 88-90): fence, cmpxchg, atomicrmw
+        if aux.random() < 0.1:
+            b["insts"].insert(aux.randrange(len(b["insts"]) + 1), {"row": 88, "ty": "v", "res": None, "has": False, "aux": True, "ord": aux.choice([2, 3, 4, 5])})
+        if aux.random() < 0.1:
+            b["insts"].insert(aux.randrange(len(b["insts"]) + 1), {"row": 89, "ty": aux.choice(["i32", "i64", "i8", "p0(i8)", "i33"]), "res": aux_ident(), "has": True, "aux": True,
+                                                                    "ord": aux.choice([1, 2, 3, 4, 5]), "ord2": aux.choice([1, 2, 5]), "fl": aux.choice(["", "", "0", "1", "0,1"]),
+                                                                    "align": aux.choice(ALIGNS)})
+        if aux.random() < 0.1:
+            fp = aux.random() < 0.2
+            b["insts"].insert(aux.randrange(len(b["insts"]) + 1), {"row": 90, "ty": aux.choice(["f1", "f2"] if fp else ["i32", "i64", "i8", "i33"]), "res": aux_ident(), "has": True, "aux": True,
+                                                                    "op": aux.choice([2, 5, 2, 5, 3, 4] if fp else [0, 1, 6, 7, 8, 9, 10, 11, 12, 13, 14]),
+                                                                    "ord": aux.choice([1, 2, 3, 4, 5]), "fl": aux.choice(["", "", "0"]), "align": aux.choice(ALIGNS)})
         k = aux.random()
         if callable_all and k < 0.15:
             ct = aux.choice(callable_all)
@@ -266,6 +278,8 @@ def gen_func(rng, max_blocks=4, sig=None, genv=()):
         if r in (84,): return fptr_sig(t)[0]
         if r == 85: return t
         if r == 87: return i["to"]
+        if r == 89: return "s(%s,i1)" % t
+        if r == 90: return t
         if r < 13: return t
         if r < 23:
             m = re.fullmatch(r"([VS])(\d+)\((.*)\)", t)
@@ -353,15 +367,37 @@ def gen_func(rng, max_blocks=4, sig=None, genv=()):
             if r == 87:
                 parts.append("%s:87:P%s=%s!T%s" % (i["ident"], t, aux_operand(t), i["to"]))
                 continue
+            if r == 88:
+                parts.append("_:88:W%d" % i["ord"])
+                continue
+            if r == 89:
+                parts.append("%s:89:F%s!Pp0(%s)=%s!P%s=%s!P%s=%s!W%d!W%d!A%s" % (i["ident"], i["fl"], t, aux_operand("p0(%s)" % t), t, aux_operand(t), t, aux_operand(t),
+                                                                                 i["ord"], i["ord2"], i["align"]))
+                continue
+            if r == 90:
+                parts.append("%s:90:F%s!W%d!Pp0(%s)=%s!P%s=%s!W%d!A%s" % (i["ident"], i["fl"], i["op"], t, aux_operand("p0(%s)" % t), t, aux_operand(t), i["ord"], i["align"]))
+                continue
             if 74 <= r <= 81:
                 rt, pts = fptr_sig(t)
                 args = ("T%s!" % rt if r % 2 == 1 else "") + "V%s!G%s" % (ref_operand(t), "&".join("%s=%s" % (pt, operand(pt)) for pt in pts))
             elif r < 23:
                 args = fl + "P%s=%s!V%s" % (t, operand(t), operand(t))
-            elif r == 23:
-                args = fl + "T%s!P%s=%s!A%s" % (pointee(t), t, operand(t), rng.choice(ALIGNS))
-            elif r == 24:
-                args = fl + "P%s=%s!P%s=%s!A%s" % (pointee(t), operand(pointee(t)), t, operand(t), rng.choice(ALIGNS))
+            elif r in (23, 24):
+                # kAtomicVolatile: 0 atomic, 1 volatile (strictly ascending); an atomic access has an ordering and an alignment (auxiliary draws)
+                at = random.Random(zlib.crc32(("at|%s|%s|%d" % (plan, i["ident"], len(parts))).encode()))
+                vol = fl == "F0!"
+                al = rng.choice(ALIGNS)
+                okw = "O"
+                if at.random() < 0.25:
+                    fl = "F0,1!" if vol else "F0!"
+                    okw = "O%d" % at.choice([0, 1, 2, 5] if r == 23 else [0, 1, 3, 5])
+                    al = al or at.choice(["1", "4", "8"])
+                else:
+                    fl = "F1!" if vol else "F!"
+                if r == 23:
+                    args = fl + "T%s!P%s=%s!%s!A%s" % (pointee(t), t, operand(t), okw, al)
+                else:
+                    args = fl + "P%s=%s!P%s=%s!%s!A%s" % (pointee(t), operand(pointee(t)), t, operand(t), okw, al)
             elif 30 <= r <= 42:
                 args = "P%s=%s!T%s" % (t, operand(t), i["to"])
             elif r == 43:
@@ -535,6 +571,28 @@ def mutants(rng, text):
         out.append(("clause-doubled", b"\n".join(lines[:k + 1] + [lines[k]] + lines[k + 1:])))
         out.append(("cleanup-after-clause", b"\n".join(lines[:k + 1] + [b"\t\tcleanup"] + lines[k + 1:])))
         out.append(("clause-untyped", with_line(k, lines[k].split(b" ")[0] + b" null")))
+    # atomic instructions: orderings and the fixed order of the optional keywords
+    ords = [(k, m) for k in body for m in re.finditer(rb" (unordered|monotonic|acquire|release|acq_rel|seq_cst)\b", lines[k])]
+    if ords:
+        k, m = aux.choice(ords)
+        out.append(("ordering-dropped", with_line(k, lines[k][:m.start()] + lines[k][m.end():])))
+        out.append(("ordering-doubled", with_line(k, lines[k][:m.end()] + m.group(0) + lines[k][m.end():])))
+        out.append(("ordering-misspelt", with_line(k, lines[k][:m.start()] + b" seqcst" + lines[k][m.end():])))
+        out.append(("ordering-after-align", with_line(k, lines[k][:m.start()] + lines[k][m.end():] + m.group(0)) if b", align " in lines[k] else text))
+    memops = [k for k in body if re.search(rb"(= load|\tstore) (?!atomic)", lines[k])]
+    if memops:
+        k = aux.choice(memops)
+        out.append(("atomic-without-ordering", with_line(k, re.sub(rb"(load|store) ", rb"\1 atomic ", lines[k], count=1))))
+        out.append(("ordering-without-atomic", with_line(k, re.sub(rb"(, align \d+)?$", rb" seq_cst\1", lines[k], count=1))))
+    atomics = [k for k in body if re.search(rb"(load|store) atomic volatile |cmpxchg weak volatile ", lines[k])]
+    if atomics:
+        k = aux.choice(atomics)
+        out.append(("keywords-reversed", with_line(k, lines[k].replace(b"atomic volatile ", b"volatile atomic ").replace(b"weak volatile ", b"volatile weak "))))
+    rmws = [k for k in body if b"= atomicrmw " in lines[k]]
+    if rmws:
+        k = aux.choice(rmws)
+        out.append(("rmw-op-dropped", with_line(k, re.sub(rb"atomicrmw (volatile )?\w+ ", rb"atomicrmw \1", lines[k], count=1))))
+        out.append(("rmw-op-unknown", with_line(k, re.sub(rb"atomicrmw (volatile )?\w+ ", rb"atomicrmw \1mul ", lines[k], count=1))))
     pads = [k for k in body if b"= landingpad " in lines[k]]
     if pads:
         k = aux.choice(pads)
